@@ -237,7 +237,7 @@ def resolver_entry_flags(ctx, rid):
                        "entry point calls the resolver as " + show(t))
     # nested recursive calls: literal false + None
     nested = [(n, t) for b, n, t in sites if b["path"] == fn["path"]]
-    ctx.count("nested resolver calls", len(nested), 7)
+    ctx.count("nested resolver calls", len(nested), 5)
     for n, t in nested:
         ok = show(t[2][i_field]) == "false" and show(t[2][i_name]) == "v1::None" and show(t[2][i_par]) == "P%d" % i_par
         ctx.expect(ok, rid, "nested-call/" + show(t[2][i_id])[-60:], site(n), "nested call passes is_field=false, None, own parent params",
